@@ -67,17 +67,16 @@ POSQ(q_bb_uset, mkbb, SITE_basic_bitset_4, k_bb_peek, k_bb_uset(p, pos, v), vf_a
 POSQ(q_bb_ureset, mkbb, SITE_basic_bitset_5, k_bb_peek, k_bb_ureset(p, pos), vf_assert(!k_bb_peek(p, pos), "unchecked_reset(pos) clears bit pos"))
 POSQ(q_bb_uflip, mkbb, SITE_basic_bitset_6, k_bb_peek, k_bb_uflip(p, pos), vf_assert(k_bb_peek(p, pos) == !before, "unchecked_flip(pos) toggles bit pos"))
 
-// bitset(string_view, pos, n): effective length min(n, str.size() - pos) must not exceed the number of bits.
+// bitset(string_view, pos, n): since /repo commit 17154eb the constructor follows std::bitset (only the first size() characters of the
+// effective string are used) and no longer has a length precondition (the former `len <= size()` site is gone). What remains is
+// `len >= 0`, an unsigned comparison that can never fire: the call must stay silent for every pos <= str.size() and every n.
 // pos <= str.size() is assumed (std::bitset throws out_of_range there; tetl documents nothing for it).
-// SITE_bitset_1 (`len >= 0`, an unsigned comparison) can never fire: it only has to stay silent here.
 Q q_bs_from_sv()
 {
     char* s = (char*)d_sym_block(SLEN); sz pos = vf_nd_u64(), n = vf_nd_u64();
     vf_assume(pos <= SLEN);
-    sz len = n < SLEN - pos ? n : SLEN - pos;
     void* p = d_sym_block(k_bs_sizeof());
     c05_watch1(s, SLEN);
-    C05_CLAUSE(0, SITE_bitset_2, !(len <= NBITS));
     C05_ALSO(SITE_bitset_1);
     c05_arm(); k_bs_from_sv(p, s, SLEN, pos, n); c05_done();
 }
